@@ -12,7 +12,7 @@ from sim.simstream import SimStream
 
 ID = "C16"
 LEVEL = "exploration"
-TIERS = {"quick": {"runs": 30000, "budget_s": 70, "chunk": 100, "min_runs": 500},
+TIERS = {"quick": {"runs": 60000, "budget_s": 75, "chunk": 100, "min_runs": 500},
          "thorough": {"runs": 3000000, "budget_s": 1200, "chunk": 300, "min_runs": 10000}}
 RULE = ("case = seeded (pointer width 8/16/32/64 x endian x compiled x align; root struct mixing scalars with T*, char*, T**, "
         "pointer arrays; memory image with targets at generated absolute addresses incl. null, dangling and overlapping ones; "
